@@ -1603,7 +1603,7 @@ def parameters_reader_rule(prog, res, rule='parameters-read'):
     ck.skip_slots()
     lp = ck.take(('loop',))
     if lp is None:
-        ck.bad('walker', ck.where(lp), 'expected the record-chain loop')
+        ck.shape('walker', ck.where(ck.peek()), 'expected the record-chain loop, found %s' % _describe(ck.peek()))
         return
     w = RChecker(prog, res, rule, f, lp[3], 'walker')
     w.skip_slots()
@@ -1635,26 +1635,41 @@ def parameters_reader_rule(prog, res, rule='parameters-read'):
     w.done()
     ck.done()
     # terminator: a zero name length ends the chain; consistency check of the chain position
-    R = Renderer(f)
     term = False
     chain = False
-    for n in f.all_nodes({'IfStmt'}):
-        c = R.render(n['cond'])
-        body = [f.nodes[x]['k'] for x in f.descendants(n['then'])]
-        if nl and c == '(%s == 0)' % nl and 'BreakStmt' in body:
-            term = True
-        if 'tellg' in c and 'nextParamByteInFile' in c and '!=' in c.replace('operator!=', '!='):
-            ths = [f.nodes[x] for x in f.descendants(n['then']) if f.nodes[x]['k'] == 'CXXThrowExpr']
-            if ths and all(t.get('throw_t') == 'std::ios_base::failure' for t in ths):
-                chain = True
+    nl0 = re.sub(r'@\d+$', '', nl) if nl else None
+    # the constructor and the non-public members / file-local helpers it delegates to
+    fam = [f]
+    for u in prog.reachable_from([f]):
+        h = prog.funcs.get(u)
+        if h is not None and h is not f and h.body is not None and ((h.cls == f.cls and h.rec.get('access') in ('private', 'protected')) or h.rec.get('internal') or '(anonymous namespace)' in h.qname):
+            fam.append(h)
+    exits = 0
+    for h in fam:
+        R = Renderer(h)
+        for n in h.all_nodes({'IfStmt'}):
+            c = R.render(n['cond'])
+            body = [h.nodes[x]['k'] for x in h.descendants(n['then'])]
+            if nl0 and c in ('(%s == 0)' % nl0, '(0 == %s)' % nl0, '!((bool)%s)' % nl0) and ('BreakStmt' in body or 'ReturnStmt' in body):
+                term = True
+            if 'BreakStmt' in body or 'ReturnStmt' in body:
+                exits += 1
+            if 'tellg' in c and 'nextParamByteInFile' in c and '!=' in c.replace('operator!=', '!='):
+                ths = [h.nodes[x] for x in h.descendants(n['then']) if h.nodes[x]['k'] == 'CXXThrowExpr']
+                if ths and all(t.get('throw_t') == 'std::ios_base::failure' for t in ths):
+                    chain = True
     if term:
         res.ok(rule, 'walker.terminator', f.loc(), 'a zero name-length byte ends the record chain', function=f.sig, expr='walker.terminator')
+    elif nl0 is None or exits:
+        res.undecided(rule, 'walker.terminator', f.loc(), 'the exit of the record chain on a zero name-length byte is not in a form the rule reads [shape not read by the rule]', function=f.sig, expr='walker.terminator')
     else:
-        res.viol(rule, 'walker.terminator', f.loc(), 'the record chain is not terminated by a zero name-length byte', function=f.sig, expr='walker.terminator')
+        res.viol(rule, 'walker.terminator', f.loc(), 'the record chain is not terminated by a zero name-length byte: nothing leaves the record loop', function=f.sig, expr='walker.terminator')
     if chain:
         res.ok(rule, 'walker.chain', f.loc(), 'each record must start where the previous next-offset pointed, else std::ios_base::failure', function=f.sig, expr='walker.chain')
     else:
-        res.viol(rule, 'walker.chain', f.loc(), 'no consistency check between the stream position and the previous record\'s next-offset', function=f.sig, expr='walker.chain')
+        usest = any(n_['k'] == 'CXXMemberCallExpr' and n_['callee']['name'] == 'tellg' for h in fam for n_ in h.nodes)
+        (res.undecided if usest else res.viol)(rule, 'walker.chain', f.loc(), 'no consistency check between the stream position and the previous record\'s next-offset' +
+                                               (' in a form the rule reads [shape not read by the rule]' if usest else ': the stream position is never consulted'), function=f.sig, expr='walker.chain')
 
 
 def data_offset_rule(prog, res, rule='data-offset'):
